@@ -12,7 +12,13 @@ import (
 
 //verif:stub logfs raft/log.segmentFile vSegmentFile
 //verif:stub logfs raft/log.fileExists vFileExists
-//verif:stub logfs raft/log.createSegment vCreateSegment
+//verif:stub logfs-create raft/log.createSegment vCreateSegment
+//verif:stub logfs-osfile os.OpenFile vOSOpenFile
+//verif:stub logfs-osfile os.Rename vOSRename
+//verif:stub logfs-osfile (*os.File).Truncate vOSTruncate
+//verif:stub logfs-osfile (*os.File).WriteAt vOSWriteAt
+//verif:stub logfs-osfile (*os.File).Sync vOSSync
+//verif:stub logfs-osfile (*os.File).Close vOSClose
 //verif:stub logfs raft/log.segments vSegments
 //verif:stub logfs os.Remove vRemove
 //verif:stub logfs raft/mmap.OpenFile vMmapOpen
@@ -92,6 +98,89 @@ func vCreateSegment(name string, opt Options) error {
 	return nil
 }
 
+// ---- stub set "logfs-osfile": the real createSegment runs; its system calls land here, each a crash point ----
+// (stub set "logfs-create" replaces createSegment by the atomic model above instead: used by the power-loss
+// harnesses, where what an unsynced new file looks like after the crash is a separate question.)
+
+var vOSHandles = map[*os.File]string{}
+
+func vRegister(name string, f *vGFile) {
+	vFS[name] = f
+	for _, n := range vOrder {
+		if n == name {
+			return
+		}
+	}
+	vOrder = append(vOrder, name)
+}
+
+func vOSOpenFile(name string, flag int, perm os.FileMode) (*os.File, error) {
+	vCrashPoint("create.before")
+	f, ok := vFS[name]
+	if !ok || !f.exists {
+		if flag&os.O_CREATE == 0 {
+			return nil, vIOError{"open: no such file"}
+		}
+		f = &vGFile{exists: true} // a new file is empty
+		vRegister(name, f)
+	} else if flag&os.O_TRUNC != 0 {
+		f.data, f.durable = nil, nil
+	}
+	h := &os.File{}
+	vOSHandles[h] = name
+	vCrashPoint("create.empty-file-exists")
+	return h, nil
+}
+
+func vOSTruncate(h *os.File, size int64) error {
+	f := vFS[vOSHandles[h]]
+	n := int(size)
+	d := make([]byte, n)
+	copy(d, f.data)
+	f.data = d
+	f.durable = make([]byte, n)
+	vCrashPoint("truncate.after")
+	return nil
+}
+
+func vOSWriteAt(h *os.File, b []byte, off int64) (int, error) {
+	f := vFS[vOSHandles[h]]
+	if int(off)+len(b) > len(f.data) {
+		return 0, vIOError{"write beyond the end of the ghost file"}
+	}
+	copy(f.data[off:], b)
+	return len(b), nil
+}
+
+func vOSSync(h *os.File) error {
+	f := vFS[vOSHandles[h]]
+	copy(f.durable, f.data)
+	vCrashPoint("fsync.after")
+	return nil
+}
+
+func vOSClose(h *os.File) error { return nil }
+
+func vOSRename(oldname, newname string) error {
+	f, ok := vFS[oldname]
+	if !ok || !f.exists {
+		return vIOError{"rename: no such file"}
+	}
+	vCrashPoint("rename.before")
+	delete(vFS, oldname)
+	if old, ok := vFS[newname]; ok {
+		old.exists = false
+	}
+	vRegister(newname, f)
+	for h, n := range vOSHandles {
+		if n == oldname {
+			vOSHandles[h] = newname
+		}
+	}
+	vCrashPoint("rename.after")
+	return nil
+}
+
 func vPrevOf(name string) uint64 {
 	// "<dir>/<n>.log"
 	i := len(name) - 5
@@ -107,7 +196,7 @@ func vPrevOf(name string) uint64 {
 func vSegments(dir string) ([]uint64, error) {
 	var offs []uint64
 	for _, name := range vOrder {
-		if f := vFS[name]; f != nil && f.exists {
+		if f := vFS[name]; f != nil && f.exists && len(name) > 4 && name[len(name)-4:] == ".log" {
 			offs = append(offs, vPrevOf(name))
 		}
 	}
@@ -135,6 +224,9 @@ func vMmapOpen(name string, flag int, mode os.FileMode) (*mmap.File, error) {
 	f, ok := vFS[name]
 	if !ok || !f.exists {
 		return nil, vIOError{"open: no such file"}
+	}
+	if len(f.data) == 0 {
+		return nil, vIOError{"mmap: invalid argument (empty file)"} // mmap(2) of length 0 fails with EINVAL
 	}
 	mf := &mmap.File{Data: f.data}
 	vMapNames[mf] = name
